@@ -1424,6 +1424,8 @@ func (e *BigMessage) ReadAll() ([]byte, error) {
 			if errors.Is(err, io.EOF) {
 				err = io.ErrUnexpectedEOF
 			}
+			// position in stream lost
+			c.toOffline()
 			return nil, err
 		}
 	}
